@@ -142,6 +142,8 @@ func (b *c08B) slot(site int) string {
 			b.slotTxt[site] = c08Wide[b.o.class2]
 		case b.o.concrete == 1:
 			b.slotTxt[site] = "o"
+		case site == c08SPath:
+			b.slotTxt[site] = "t" // a symbolic letter in a file name only multiplies the file-system probes
 		default:
 			b.slotTxt[site] = string([]byte{zzverif.ByteIn("s"+zzverif.Itoa(site), zzverif.Lower)})
 		}
